@@ -619,6 +619,7 @@ func (in *Interp) visit(fr *frame, instr ssa.Instruction) cont {
 			i := in.concIndex(fr.get(instr.Index), len(x), instr.Index.Type())
 			fr.set(instr, uint64(x[i]))
 		case *Map:
+			in.monMapAccess(x, false)
 			k := in.concKey(fr.get(instr.Index))
 			v, ok := x.Get(k)
 			if !ok {
@@ -876,6 +877,7 @@ func (it *strIter) next() Value {
 func (in *Interp) rangeIter(x Value) iterator {
 	switch x := x.(type) {
 	case *Map:
+		in.monMapAccess(x, false)
 		keys := x.Keys()
 		if in.X != nil && in.X.ReverseMaps {
 			for i, j := 0, len(keys)-1; i < j; i, j = i+1, j-1 {
